@@ -164,7 +164,7 @@ def sample_lambda(rng):
         return rng.choice([-1, 1]) * rng.loguniform(1e-17, 1e-8)
     if r < 0.95:
         return rng.choice([-1, 1]) * rng.loguniform(1e-320, 1e-17)
-    return rng.choice([-1, 1]) * rng.loguniform(1e-8, 1e-2)
+    return rng.choice([-1, 1]) * rng.loguniform(1e-8, rng.choice([1e-4, 1e-2]))
 
 
 def softmax_vec(rng, n):
@@ -302,7 +302,124 @@ def gen(rng, tier):
             c = rng.uniform(-room, room)
         add("softmax2", "softmax2 %s %s" % (f2h(c), vec(xs)))
     add("softmax_empty", "softmax2 %s 0" % f2h(1.0))
+    strata(rng.fork("strata"), add, quick)
     return lines, cover
+
+
+# ------------------------------------------------------------------------------------------ generic strata
+SPECIALS = [0.0, -0.0, 1.0, -1.0, 2.0, 3.0, 0.5, 1.5, 2.5, 1.0 / 3.0, 2.0 / 3.0, 4.0, 8.0, 1024.0, 0.25, 0.125,
+            math.nextafter(1.0, 2.0), math.nextafter(1.0, 0.0), math.nextafter(2.0, 3.0), math.nextafter(2.0, 0.0),
+            math.nextafter(0.5, 1.0), math.nextafter(0.5, 0.0), 10.0, 100.0]
+SOFTMAX_LENGTHS = sorted(set(list(range(1, 42)) + [2 ** k + d for k in range(3, 10) for d in (-1, 0, 1)] +
+                         [8 * m + r for m in (6, 7, 12, 25, 31, 62, 99, 120, 124) for r in range(8)] +
+                         [96, 100, 255, 256, 257, 511, 512, 513, 768, 992, 993, 997, 999, 1000]))
+
+
+def strata(rng, add, quick):
+    """Deterministic boundary strata (tools/GENERIC_STRATA.md): special values, size boundaries, threshold bands."""
+    E = 2.0 ** -52
+    # ---- logit: the edges of [0,1] from both sides (arguments a hair outside must be rejected, not tolerated)
+    edge = [1e-17, -1e-17, 1e-300, -1e-300, 5e-324, -5e-324, 2.0 ** -1022, -(2.0 ** -1022), -(2.0 ** -1060), 2.0 ** -1060,
+            1.0 + E, 1.0 + 2 * E, 1.0 + 3 * E, 1.0 - E / 2, 1.0 - E, 1.0 + 1e-15, 1.0 + 1e-12, 1.0 + 1e-9, 1.0 + 1e-6,
+            -1e-15, -1e-12, -1e-9, -1e-6, -1e-3, -1.0, 2.0, 1.5, 1e300, -1e300, 0.0, -0.0, 1.0, 0.5,
+            float("inf"), float("-inf"), float("nan")]
+    for p in edge + [v for v in SPECIALS if 0 <= v <= 1]:
+        add("logit_edge", "logit " + f2h(p))
+        add("rt2_edge", "rt2 " + f2h(p))
+    for _ in range(30 if quick else 600):
+        add("logit_edge", "logit " + f2h(-rng.loguniform(5e-324, 1e-290)))            # negative subnormal .. tiny
+        add("logit_edge", "logit " + f2h(1.0 + E * rng.randint(1, 64)))                # a few ulps above one
+        add("logit_edge", "logit " + f2h(-rng.loguniform(1e-30, 1e-10)))
+    # ---- logistic / round trip: exp overflow (709.78), saturation to 1 (36.74), flush to 0 (-745.13), specials
+    bands = []
+    for c in (709.782712893384, 36.7368005696771, 36.04365338911715, 745.1332191019411, 708.3964185322641, 0.0, 1.0, 0.5, 2.0, 3.0, 1.0 / 3.0, 2.0 / 3.0):
+        v = c
+        for _ in range(3):
+            bands += [v, -v]
+            v = math.nextafter(v, math.inf)
+        v = c
+        for _ in range(3):
+            v = math.nextafter(v, -math.inf)
+            bands += [v, -v]
+    bands += [float(i) / 2 for i in range(-80, 81)]
+    add("logistic_bands", "logisticv " + vec(bands))
+    for x in bands:
+        if abs(x) <= 745.2:
+            add("rt1_bands", "rt1 " + f2h(x))
+    # ---- binomial coefficient
+    B = 1 << 63
+    M = (1 << 64) - 1
+    for n in [B, B + 1, B + 2, B + 12345, M - 2, M - 1, M, B - 1, B - 2, (1 << 62) + 1, rng.randint(B, M), rng.randint(B, M)]:
+        for k in (n, n - 1, n - 2, n - 3, 0, 1, 2, 3):
+            add("binom_k>=2^63", "binom %d %d" % (n, k))
+        add("binom_k>=2^63", "binom %d %d" % (n, B))
+        add("binom_k>=2^63", "binom %d %d" % (n, n // 2))
+    two32 = 1 << 32
+    for n in ([two32 + d for d in range(-3, 12)] + [6074000999 + d for d in range(-3, 5)] + [two32 * 2, two32 * 2 + 1, 3037000500, 3037000499,
+              4294967297, 5000000000, 6000000000] + [rng.randint(two32 + 1, 6074000999) for _ in range(20 if quick else 300)]):
+        for k in (2, n - 2):
+            add("binom_n>2^32_k=2", "binom %d %d" % (n, k))
+    for k in (3, 4, 5, 8):      # the same band for the next few k: n around 2^(64/k) .. threshold
+        r = int(round(2 ** (64.0 / k)))
+        for n in [r + d for d in range(-2, 3)] + [2 * r, 3 * r]:
+            if n >= k:
+                add("binom_small_k_band", "binom %d %d" % (n, k))
+                add("binom_small_k_band", "binom %d %d" % (n, n - k))
+    # ---- Box-Cox: small |lambda| bands, special x (x^lambda - 1 = 0 at x = 1), special lambda
+    lam_band = []
+    for e in range(-12, -1):
+        base = 10.0 ** e
+        lam_band += [base, -base, math.nextafter(base, 0.0), math.nextafter(base, 1.0), -math.nextafter(base, 0.0), 3 * base, -7 * base]
+    lam_band += [2.0 ** -k for k in (10, 13, 14, 20, 26, 27, 30, 40, 52, 53)] + [-(2.0 ** -k) for k in (13, 20, 27, 40)]
+    for lam in lam_band:
+        for x in (rng.loguniform(1e-6, 1e6), rng.choice([2.0, 0.5, 10.0, 1e6, 1e-6, 3.0, math.e])):
+            add("boxcox_lambda_band", "boxcox %s %s" % (f2h(x), f2h(lam)))
+        s_ = rng.loguniform(1e-6, 1e6)
+        al = rng.choice([-1, 1]) * rng.loguniform(1e-6, 1e6)
+        add("boxcoxs_lambda_band", "boxcoxs %s %s %s" % (f2h(s_ - al), f2h(lam), f2h(al)))
+    for _ in range(300 if quick else 20000):
+        lam = rng.choice([-1, 1]) * rng.loguniform(1e-8, 1e-4)
+        x = rng.loguniform(1e-6, 1e6)
+        if rng.chance(0.5):
+            add("boxcox_lambda_1e-8..1e-4", "boxcox %s %s" % (f2h(x), f2h(lam)))
+        else:
+            al = rng.choice([-1, 1]) * rng.loguniform(1e-6, 1e6)
+            add("boxcoxs_lambda_1e-8..1e-4", "boxcoxs %s %s %s" % (f2h(x - al), f2h(lam), f2h(al)))
+    lam_special = [v for v in SPECIALS if abs(v) <= 5] + [-2.0, -3.0, -0.5, 5.0, -5.0, -1.0 / 3.0]   # lambda in +-5
+    for x in [v for v in SPECIALS if v > 0] + [1e-6, 1e6, math.nextafter(1e6, 0.0), math.nextafter(1e-6, 1.0), math.e]:
+        for lam in (lam_special if not quick else [rng.choice(lam_special) for _ in range(6)] + [0.0, 0.5, 1.0]):
+            add("boxcox_special", "boxcox %s %s" % (f2h(x), f2h(lam)))
+            al = rng.choice([0.0, -0.0, 1.0, -1.0, 0.5, -0.5, 2.0, -2.0, 1024.0, -1024.0])
+            if rng.chance(0.5):
+                add("boxcoxs_special", "boxcoxs %s %s %s" % (f2h(x - al), f2h(lam), f2h(al)))
+    # ---- softmax: every residue of the length mod 8 / 16 / 32, powers of two and neighbours, up to 1000
+    lens = SOFTMAX_LENGTHS if not quick else sorted(set(list(range(1, 34)) + [rng.choice(SOFTMAX_LENGTHS) for _ in range(40)] +
+                                                        [63, 64, 65, 127, 128, 129, 255, 256, 257, 511, 512, 513, 993, 997, 999, 1000]))
+    for n in lens:
+        style = rng.randint(0, 4)
+        if style == 0:          # all far below -745: without the max shift every exponential underflows
+            xs = [rng.uniform(-1e4, -745.2) for _ in range(n)]
+        elif style == 1:        # narrow band below -745
+            off = rng.uniform(-9000, -800)
+            xs = [off + rng.uniform(-20, 20) for _ in range(n)]
+        elif style == 2:        # distinct moderately spread values: every partial sum matters
+            xs = [rng.uniform(-3, 3) for _ in range(n)]
+        elif style == 3:        # all equal / max(x) == 0
+            v = rng.choice([0.0, -0.0, 1.0, -1000.0, 1e4, -1e4, 0.5])
+            xs = [v] * n
+            if n > 1 and rng.chance(0.5):
+                xs[rng.randint(0, n - 1)] = max(v - rng.choice([1.0, 0.5, 1e-9, 800.0]), -1e4)
+        else:                   # specials mixed in, maximum exactly 0
+            xs = [-abs(rng.choice(SPECIALS + [rng.uniform(0, 50)])) for _ in range(n)]
+            xs[rng.randint(0, n - 1)] = 0.0
+        m = max(abs(v) for v in xs)
+        room = max(1e4 - m, 0.0)
+        c = rng.choice([0.0, 1.0, -1.0, 0.5, rng.uniform(-room, room), float(int(rng.uniform(-room, room)))])
+        if abs(c) > room:
+            c = 0.0
+        add("softmax_len_strata", "softmax2 %s %s" % (f2h(c), vec(xs)))
+    # binom_coeff_alt around the z < 0.5 / overflow constants of gamma is out of reach (arguments are n + 1 >= 1)
+
 
 
 def model_line(line):
@@ -464,6 +581,10 @@ def oracle(lines, impl):
             continue
         if op == "rt2":
             p = h2f(t[1])
+            if not ((p == p) and 0.0 <= p <= 1.0):
+                if st != "panic":
+                    fails.append(Failure(i, "logit:reject", "logit(%r) returned %s instead of rejecting an argument outside [0,1]" % (p, rep.strip())))
+                continue
             if st != "ok":
                 fails.append(Failure(i, "rt2", "logistic(logit(%r)): %s" % (p, st)))
                 continue
